@@ -35,7 +35,7 @@ PROPS["C11"].update(
 
 # properties not claimed yet (filled while the framework is being built)
 NOT_APPLICABLE = {("C%02d" % i): "monitor not built yet (work in progress; see DESIGN.md for the plan)" for i in range(1, 21)}
-HOOK_COMMITS = ["1fddc2d", "3ef5cae"]
+HOOK_COMMITS = ["1fddc2d", "3ef5cae", "9dccd1c"]
 
 PROPS["C12"] = dict(
     race=True,
@@ -240,7 +240,7 @@ PROPS["C09"] = dict(
           "delivered; receiver-concurrent: 3 clients issuing Direct/UncacheCid around the eviction boundary, history checked with porcupine "
           "against the same model; pubsub: three libp2p hosts on one gossip topic (publisher, relay with resend, receiver). "
           "distinct_nontrivial = sampled distinct exhaustive sequences + history configurations."),
-    floors={"quick": {"evictions": 800, "refresh_on_hit": 2000, "uncache_then_delivered": 100, "rejected_then_delivered": 100, "concurrent_histories": 20, "pubsub_runs_completed": 2, "seqs_with_eviction_and_hit": 100000}},
+    floors={"quick": {"pubsub_republication_of_disallowed_publisher": 1, "pubsub_allow_filter_on_B_only-original-publisher": 1, "evictions": 800, "refresh_on_hit": 2000, "uncache_then_delivered": 100, "rejected_then_delivered": 100, "concurrent_histories": 20, "pubsub_runs_completed": 2, "seqs_with_eviction_and_hit": 100000}},
     watchdog_s={"quick": 900, "thorough": 7200},
     level_text=("Exploration (the small-capacity LRU part is exhaustive up to the stated length): delivery decisions of the real receiver are "
                 "compared call by call with a reference model of 'allowed and not among the 64 most recently seen, un-removed CIDs'; "
@@ -331,8 +331,11 @@ PROPS["C04"] = dict(
           "success notification, exactly one error notification for announced syncs, verified blocks intact; then faults stop and the same head "
           "is retried (re-announced for announced syncs) with the SAME subscriber: must succeed, set latest to the head, not re-request blocks "
           "verified before, emit one success notification; final store equals the publisher's; closing the subscriber must reveal no further "
-          "notification. distinct_nontrivial = distinct (fault script, mode, mount, address list, baseline kind) tuples."),
-    floors={"quick": {"faulty_syncs_failed": 500, "fault_pairs": 150, "mount_libp2phttp-discovery": 150, "mount_legacy-nopath": 150, "addrs_live-dead": 80, "addrs_dead-live": 80,
+          "notification. Sub-check unusable-address: the sync fails before any request because no sync client can be made from the addresses "
+          "(plain tcp / udp address, or none for an unknown publisher), for subscribers with and without a libp2p host, explicit and "
+          "announced; the end of an announcement's handling is detected from the tap counters; same obligations, then the same head with "
+          "the real address. distinct_nontrivial = distinct (fault script, mode, mount, address list, baseline kind) tuples."),
+    floors={"quick": {"unusable_address_syncs_failed": 12, "faulty_syncs_failed": 500, "fault_pairs": 150, "mount_libp2phttp-discovery": 150, "mount_legacy-nopath": 150, "addrs_live-dead": 80, "addrs_dead-live": 80,
                       "fault_hit_reset": 30, "fault_hit_stall": 10, "fault_hit_ctx-cancel": 20, "fault_hit_hook-fail": 20}},
     watchdog_s={"quick": 1200, "thorough": 7200},
     level_text=("Fault enumeration (seeded sample over kind x request index x mode x mount x address list, singles and pairs): real syncs against a "
